@@ -23,7 +23,7 @@ def run(ctx):
     ctx.build()
     ctx.assumptions += [
         "one backend address per model instance (entries of different addresses do not interact)",
-        "a request issued while the proxy is still processing a connection loss may be answered with an error (bounded window)",
+        "a request issued while the proxy is still processing a connection loss, or that shares a connect attempt started while the backend was down, may be answered with an error (bounded windows, stated in the module)",
     ]
     r = ctx.mc("redis", "ConnTable", "MC_ConnTable_fixed.cfg", workers=8, timeout=900, coverage=not ctx.thorough)
     if r.coverage:
@@ -57,9 +57,27 @@ def run(ctx):
         ctx.case(key=[(s["a"], s["r"]) for s in beh], nontrivial=len(faults) > 0)
         art = {"behaviour": beh, "result": res}
         fkind = "+".join(sorted(set(faults))) or "no-fault"
+        # The replay controls the environment only: whether a request joined the connect attempt of an earlier,
+        # still unanswered request (fail fast sharing) is up to the proxy's goroutines. An error is therefore also
+        # allowed when some request that was in flight at issue time witnessed a fault in the model.
+        may = {s["r"]: s["mayErr"] for s in beh if s["a"] == "Done"}
+        inflight, shared = set(), set()
+        for s in beh:
+            if s["a"] == "Issue":
+                if any(may.get(x) for x in inflight):
+                    shared.add(s["r"])
+                inflight.add(s["r"])
+            elif s["a"] == "Done":
+                inflight.discard(s["r"])
         for b in res.get("bad") or []:
-            sig = "no-reply" if "no reply" in b else "error-while-reachable"
-            ctx.violation("%s/%s" % (sig, fkind), b, art)
+            if "no reply" in b:
+                ctx.violation("no-reply/%s" % fkind, b, art)
+                continue
+            rid = int(b.split()[1])
+            if rid in shared:
+                ctx.cov["shared_attempt_errors_allowed"] = ctx.cov.get("shared_attempt_errors_allowed", 0) + 1
+                continue
+            ctx.violation("error-while-reachable/%s" % fkind, b, art)
         if not res["healOK"]:
             ctx.violation("no-heal/%s" % fkind,
                           "backend reachable again but requests still fail after %d tries: %s" % (res["healTries"], res["healText"]), art)
